@@ -1511,10 +1511,88 @@ def run_cmdline_histories(ctx):
                 vsig="clh|%s" % got[0])
 
 
+def run_nameless(ctx):
+    """Resources that have no URL at all - a StringIO, a stream without a
+    name, a stream with a placeholder name - are resources too: closed when
+    the call returns or raises."""
+    import ZConfig
+    import ZConfig.loader as L
+    res = ctx.res
+    made = []
+    orig = L.BaseLoader.createResource
+
+    def create(self, file, url):
+        r = orig(self, file, url)
+        made.append(r)
+        return r
+
+    class Nameless(io.StringIO):
+        pass
+
+    class Placeholder(io.StringIO):
+        name = "<stdin>"
+
+    class IntNamed(io.StringIO):
+        name = 0
+
+    schema = ZConfig.loadSchemaFile(io.StringIO(CL_SCHEMA))
+    cases = [("config", t) for t in [CL_GOOD] + CL_REFUSED[:6]] + \
+        [("schema", CL_SCHEMA), ("schema", CL_SCHEMA[:60]),
+         ("schema", CL_SCHEMA.replace("integer", "zcv.nosuch")),
+         ("schema", CL_SCHEMA.replace("</schema>",
+                                      "<key name='level'/></schema>"))]
+    L.BaseLoader.createResource = create
+    try:
+        n = 0
+        for what, text in cases:
+            for cls in (io.StringIO, Nameless, Placeholder, IntNamed):
+                for via in ("function", "loader"):
+                    n += 1
+                    if not ctx.mine(n):
+                        continue
+                    del made[:]
+                    f = cls(text)
+                    try:
+                        if what == "config":
+                            if via == "function":
+                                ZConfig.loadConfigFile(schema, f)
+                            else:
+                                L.ConfigLoader(schema).loadFile(f)
+                        elif via == "function":
+                            ZConfig.loadSchemaFile(f)
+                        else:
+                            L.SchemaLoader().loadFile(f)
+                        end = "returned"
+                    except ZConfig.ConfigurationError:
+                        end = "refused"
+                    except Exception as e:  # noqa
+                        end = "raised " + type(e).__name__
+                    res.evaluations += 1
+                    res.count("nameless_resource_loads")
+                    res.sig("nameless|%s|%s|%s|%s" % (what, cls.__name__,
+                                                      via, end))
+                    left = [repr(r.url) for r in made
+                            if not getattr(r, "closed", False)]
+                    if left or not made:
+                        res.violate(
+                            "resource-without-url-not-closed",
+                            {"family": "nameless", "what": what,
+                             "stream": cls.__name__, "via": via},
+                            "every resource closed", left or "no resource "
+                            "object was created",
+                            detail="%s from a %s through the %s: call %s, "
+                            "open resources %r" % (what, cls.__name__, via,
+                                                   end, left),
+                            vsig="nameless|%s|%s" % (what, end))
+    finally:
+        L.BaseLoader.createResource = orig
+
+
 def run_shard(ctx):
     res = ctx.res
     res.count("unjudged", 0)
     run_loader_histories(ctx)
+    run_nameless(ctx)
     run_cmdline_histories(ctx)
     scs = scenarios(ctx)
     with Machinery(ctx) as mach:
@@ -1546,6 +1624,9 @@ def finalize(m, tier):
 
 
 def replay(ctx, case):
+    if case.get("family") == "nameless":
+        ctx.mine = lambda i: True
+        return run_nameless(ctx)
     if case.get("family") == "cmdline-history":
         ctx.mine = lambda i: True
         return run_cmdline_histories(ctx)
